@@ -5,8 +5,9 @@ import BrushVerif.Gen.Caches
 
 Every `#[cached::macros::cached(max_size = N, key = …, convert = …)] fn f(params)` expands to: lock the
 global `SizedCache`, `cache_get(&key)` (a hit refreshes the entry's recency and returns a clone of the stored
-value); on a miss compute the body, `cache_set(key, value)` (inserted as most recent; when the store is
-full the least recently used entry is dropped), return it.  `compile_regex` (brush-core/src/regex.rs) does the same
+value); on a miss compute the body and, unless it is an `Err` (cached 2.x skips `Err` results of `Result`-returning
+functions by default), `cache_set(key, value)` (inserted as most recent; when the store is full the least recently
+used entry is dropped); return it.  `compile_regex` (brush-core/src/regex.rs) does the same
 by hand with `cached::LruCache`.  The store is modelled as an association list, most recently used first.
 -/
 namespace BrushVerif.Cache
@@ -27,18 +28,19 @@ def touch (k : K) (v : V) (c : Store K V) : Store K V := (k, v) :: remove k c
 /-- `cache_set`: most recent position; entries beyond the capacity (the least recently used) are dropped. -/
 def set (cap : Nat) (k : K) (v : V) (c : Store K V) : Store K V := ((k, v) :: remove k c).take cap
 
-/-- One call of a memoised function `f` whose cache key is `key x`. -/
-def memoStep (f : X → V) (key : X → K) (cap : Nat) (c : Store K V) (x : X) : V × Store K V :=
+/-- One call of a memoised function `f` whose cache key is `key x`; `keep v` says whether a computed value is stored
+(`Ok(_)` results are, `Err(_)` results are not). -/
+def memoStep (f : X → V) (key : X → K) (keep : V → Bool) (cap : Nat) (c : Store K V) (x : X) : V × Store K V :=
   match get? (key x) c with
   | some v => (v, touch (key x) v c)
-  | none => (f x, set cap (key x) (f x) c)
+  | none => (f x, if keep (f x) then set cap (key x) (f x) c else c)
 
 /-- A history of calls in one process: the values returned, and the final store. -/
-def runMemo (f : X → V) (key : X → K) (cap : Nat) : Store K V → List X → List V × Store K V
+def runMemo (f : X → V) (key : X → K) (keep : V → Bool) (cap : Nat) : Store K V → List X → List V × Store K V
   | c, [] => ([], c)
   | c, x :: xs =>
-    let r := memoStep f key cap c x
-    let rest := runMemo f key cap r.2 xs
+    let r := memoStep f key keep cap c x
+    let rest := runMemo f key keep cap r.2 xs
     (r.1 :: rest.1, rest.2)
 
 /-- The arguments of a memoised call: a value for every (field-expanded) parameter name. -/
